@@ -217,3 +217,7 @@ Definition brun_step (n width : Z) (sm : bfifo * mon) (x : ev * ain) : bfifo * m
 
 Definition brun (n width : Z) (tr : list (ev * ain)) (sm : bfifo * mon) : bfifo * mon :=
   fold_left (brun_step n width) tr sm.
+
+(* states reachable from power-on *)
+Definition areach (n width : Z) (tr : list (ev * ain)) : afifo * mon := arun n width tr (astate0 n, mon0).
+Definition breach (n width : Z) (tr : list (ev * ain)) : bfifo * mon := brun n width tr (bstate0 n, mon0).
